@@ -67,6 +67,11 @@ def build_query(vc, depth=DEPTH, extra_assumptions=()):
     # quantifier to the solver would only start model-based instantiation
     lem = [LEMMAS[n].formula for n in sorted(vc.uses) if n in LEMMAS and (LEMMAS[n].patterns or not LEMMAS[n].vars)]
     inst = instantiate(fs, depth, getattr(vc, "reveal", ()))
+    # non-recursive ("macro") definitions may also be needed at terms that only E-matching creates
+    for f in SPEC.values():
+        if f.macro and f.define is not None:
+            vs = [z3.Const("m%d_%s" % (i, f.name), f.decl.domain(i)) for i in range(f.decl.arity())]
+            lem.append(z3.ForAll(vs, f.decl(*vs) == f.define(*vs), patterns=[f.decl(*vs)]))
     s = z3.Solver()
     for f in lem + fs + inst:
         s.add(f)
@@ -134,8 +139,10 @@ def _solve_one(task):
                 # `unknown` at 8 s by default and `unsat` in 10 ms with another arithmetic core), hence a portfolio
                 if be == "z3-api/arith2":
                     s.set("smt.arith.solver", 2)
-                elif be == "z3-api/noauto":
-                    s.set("auto_config", False)
+                elif be == "z3-api/nombqi":
+                    # E-matching only. (auto_config=false was dropped from the portfolio: with model-based quantifier
+                    # instantiation it returned a non-reproducible `unsat` on a satisfiable canary query.)
+                    s.set("smt.mbqi", False)
                 elif be == "z3-api/seed":
                     s.set("smt.random_seed", 7)
                 s.set("timeout", timeout_ms if be == "z3-api" else max(1000, timeout_ms // 2))
@@ -157,6 +164,8 @@ def _solve_one(task):
                     txt = smt2
                     if be == "cvc5":   # z3 5.x spells the int/bit-vector conversions differently from cvc5 1.0
                         txt = txt.replace("(_ int_to_bv ", "(_ int2bv ").replace("ubv_to_int", "bv2nat").replace("bv2int", "bv2nat")
+                        # z3's simplifier splits seq.nth into in-bounds / out-of-bounds parts; cvc5 knows only seq.nth
+                        txt = txt.replace("seq.nth_u", "seq.nth").replace("seq.nth_i", "seq.nth")
                     f.write(txt)
                     if "(check-sat)" not in smt2:
                         f.write("\n(check-sat)\n")
@@ -197,7 +206,7 @@ def pool():
     return _pool
 
 
-def discharge(vcs, timeout_ms=10000, backends=("z3-api", "cvc5", "z3-api/arith2", "z3-api/noauto"), want_model=True, depths=(1, 2, 3)):
+def discharge(vcs, timeout_ms=10000, backends=("z3-api", "cvc5", "z3-api/arith2", "z3-api/nombqi"), want_model=True, depths=(1, 2, 3)):
     """Discharge all undecided VCs in parallel. Fills vc.status / backend / seconds / model.
     Portfolio: each VC is first tried with one round of definitional unfolding and a short budget, the
     ones left open are retried with deeper unfolding and the full budget."""
